@@ -328,7 +328,7 @@ pub fn gen_geom(src: &mut Src, slot: usize) -> (RGeom, &'static str) {
         }
     }
 }
-const NETS: &[&str] = &["vdd", "VSS", "Net1", "out<3>", "clk_A", "a", "Q", "größe"];
+const NETS: &[&str] = &["vdd", "VSS", "Net1", "out<3>", "clk_A", "a", "Q", "größe", "VDD_Ä", "ÜBER_Ω"];
 
 pub fn gen_layers(src: &mut Src, share_numbers: bool) -> Vec<RLayer> {
     let n = src.usize_in(1, 5);
